@@ -10,6 +10,7 @@ mod c07;
 mod c19;
 mod img;
 mod c11;
+mod c20;
 
 fn main() {
     // silence panic messages of caught panics
@@ -30,6 +31,7 @@ fn main() {
         "C07" => c07::run(seed, n, outdir, corpus),
         "C19" => c19::run(seed, n, outdir, corpus),
         "C11" => c11::run(seed, n, outdir, corpus),
+        "C20" => c20::run(seed, n, outdir, corpus),
         "C05" | "C09" => img::run(prop, seed, n, outdir, corpus),
         "TOK" | "C01" | "C02" | "C03" | "C04" | "C08" | "C12" | "C13" => tok::run(prop, seed, n, outdir, corpus),
         _ => {
